@@ -10,7 +10,7 @@ ML = os.path.join(BUILD, 'ml')
 
 TRUSTED_BASE = [
     'Coq 8.16.1 kernel (vm_compute used; native_compute not used)',
-    'axioms: none expected — Print Assumptions output of every property theorem is checked for "Closed under the global context"',
+    'axioms: none — on every run coqc is re-run on the property statement files and every Print Assumptions must answer "Closed under the global context" (recorded per file in the evidence)',
     'OCaml extraction with ExtrOcamlBasic only (Extract Inductive for bool, option, unit, list, prod, sumbool; no Extract Constant); N/Z/positive/nat stay Coq datatypes',
     'tools/driver.ml (s-expression parsing, number conversion, printing) and ocamlopt 4.13.1',
     'tools/nop2coq.py translator over clang 14 JSON AST: the enumerators of EncodingByte / ErrorStatus, the SipHash keys, BaseEncodingSize and Encoding<T>::Prefix / Match of the scalar types are regenerated from /repo as coq/Gen.v on every run; coq/Bridge.v proves the hand-written leaves equal to them',
@@ -223,6 +223,22 @@ def check_proofs(ctx, files):
             detail.append({'file': f, 'theorems': names, 'status': 'proved'})
         else:
             detail.append({'file': f, 'theorems': names, 'status': 'FAILED'})
+    # Print Assumptions of every property theorem: re-run coqc on the (small) statement files and read its output
+    if ok:
+        import tempfile
+        for d in detail:
+            if d['file'] == 'Bridge.v' or d['status'] != 'proved':
+                continue
+            with tempfile.TemporaryDirectory(dir=BUILD) as td:
+                r = run(['timeout', '900', 'coqc', '-Q', '.', 'Nop', d['file'], '-o', os.path.join(td, d['file'][:-2] + '.vo')], cwd=COQ, timeout=1000)
+            closed = r.stdout.count('Closed under the global context')
+            axioms = re.findall(r'Axioms:\n((?:[^\n]+\n)+)', r.stdout)
+            d['assumptions'] = {'closed_under_global_context': closed, 'axioms': axioms}
+            if r.returncode != 0 or closed != len(d['theorems']) or axioms:
+                ok = False
+                d['status'] = 'FAILED'
+                discharged -= len(d['theorems'])
+                lg += '\nFile "./%s", line 0\nError: Print Assumptions: %d of %d theorems are closed under the global context; axioms: %s\n\n' % (d['file'], closed, len(d['theorems']), axioms)
     if not ok:
         m = re.findall(r'File "\./([^"]+)", line (\d+).*?\n(Error:.*?)(?:\n\n|\Z)', lg, re.S)
         ctx.proof_failure = [{'file': a, 'line': int(b), 'error': c[:500]} for a, b, c in m[:5]] or [{'log': lg[-1500:]}]
